@@ -9,7 +9,7 @@ from __future__ import annotations
 
 from typing import Any
 
-from models.zoo import CLASSES, R, build, describe, reset_all
+from models.zoo import CLASSES, R, build, describe, kids_of, node_at, positions_of, reset_all, sub_recipe
 from oracles import xpath_ref as XR
 from vcheck.core import Family, Spec
 
@@ -113,6 +113,23 @@ def make_harness(paths: list[tuple[list[tuple], bool]]):
             e.fail("find-is-not-first-of-findall", scenario=scenario)
         if list(root.findall(text)) != found:
             e.fail("node.findall-differs-from-ASTXpath.findall", scenario=scenario)
+        # the same xpath (string and object) under other roots that share node objects with the
+        # first tree: answers are relative to the root given, never to an earlier one
+        others = [(f"subtree at {path}", sub_recipe(recipe, path), node_at(root, path)) for path in positions_of(recipe) if kids_of(sub_recipe(recipe, path))][:3]
+        wrapped_recipe = R("VReq", child=recipe)
+        others.append(("new parent around the old root", wrapped_recipe, CLASSES["VReq"](child=root)))
+        for label, recipe2, root2 in others:
+            chains2 = XR.chains(recipe2, root2)
+            want2 = [ch[-1][0] for ch in chains2 if XR.matches(steps, relative, ch, CLASSES)]
+            tree2 = Tree(root2)
+            for xp2 in (xp, ASTXpath(text)):
+                matched2 = [ch[-1][0] for ch in chains2 if xp2.match(tree2, ch[-1][0])]
+                found2 = list(xp2.findall(root2))
+                if {id(n) for n in matched2} != {id(n) for n in want2} or {id(n) for n in found2} != {id(n) for n in want2}:
+                    if {id(n) for n in matched} != {id(n) for n in want} or {id(n) for n in found} != {id(n) for n in want}:
+                        break  # already reported above
+                    scenario.update(second_root=label, second_match=len(matched2), second_findall=len(found2), second_reference=len(want2))
+                    e.fail(sig("answer-under-second-root-differs-from-reference"), scenario=scenario)
         e.distinct((pno, tno))
         if want:
             e.count("nonempty_results")
